@@ -142,6 +142,8 @@ def check(ctx):
                       "under which solve() declares it; buffer cursor advanced once per advanced step; buffer cleared exactly when saved", 6)
     ctx.rule("R05.4", "rank agreement between the record writer and the reader on the shape domain {1, many}^2", 4)
     ctx.rule("R05.5", "thermalisation: first stage runs with save=False; clock, labels and record buffer are reset before the recorded stage", 4)
+    ctx.rule("R05.10", "Solution.times has one entry per frame: the test 'is the final frame already among the periodic ones' is exact "
+                       "(index arithmetic or == on strictly increasing times), never a tolerance test", 1)
     ctx.rule("R05.6", "reported frame times are exclusive prefix sums of dt (frame s <-> sum of the first s steps)", 1)
     ctx.rule("R05.7", "the reader's dt > 0 mask only drops unfilled buffer tail: buffers are zero-initialised", 2)
     frs = repo.func(RUNNER, "Runner._run_stage")
@@ -580,6 +582,37 @@ def times_typing(ctx):
            consequence="Solution.times is one step ahead of the frames: frames labelled t=[0, .004, .008, .011] are reported at "
                        "[.001, .005, .009, .012]; closest_solve_step() and time-dependent A(t) evaluation use the wrong time",
            witness={"input": "dt=1e-3 fixed, solve_time=0.0105, save_every=4"})
+    final_frame_test(ctx, ft, s)
+
+
+def final_frame_test(ctx, ft, strided_stmt):
+    """R05.10: the number of reported times equals the number of frames for every (N, save_every): the final time is appended
+    exactly when the last step is not a multiple of save_every."""
+    fn = ft.node
+    sname = norm(strided_stmt.targets[0])
+    full = norm(strided_stmt.value.value)
+    ifs = [n for n in own_nodes(fn) if isinstance(n, ast.If) and any(isinstance(r, ast.Return) for r in ast.walk(n))
+           and (sname in {x.id for x in ast.walk(n.test) if isinstance(x, ast.Name)} or "%" in norm(n.test))]
+    det = [norm(i.test) for i in ifs]
+    ok = False
+    why = "no test found"
+    if len(ifs) == 1:
+        t = ifs[0].test
+        calls = {norm(c.func).split(".")[-1] for c in ast.walk(t) if isinstance(c, ast.Call)}
+        tolerant = calls & {"isclose", "allclose", "approx"} or any(
+            isinstance(c, ast.Compare) and any(isinstance(o, (ast.Lt, ast.LtE, ast.Gt, ast.GtE)) for o in c.ops) for c in ast.walk(t))
+        exact_values = isinstance(t, ast.Compare) and len(t.ops) == 1 and isinstance(t.ops[0], (ast.Eq, ast.NotEq)) and \
+            {norm(t.left), norm(t.comparators[0])} == {f"{sname}[-1]", f"{full}[-1]"}
+        modular = isinstance(t, ast.Compare) and len(t.ops) == 1 and isinstance(t.ops[0], (ast.Eq, ast.NotEq)) and "%" in norm(t) \
+            and any(isinstance(c, ast.Constant) and c.value == 0 for c in [t.left] + t.comparators)
+        ok = bool((exact_values or modular) and not tolerant)
+        why = "tolerance test" if tolerant else ("exact" if ok else "unrecognised test")
+    ctx.ob("R05.10", f"final-frame test in Solution.times is exact: {det}", ok, detail={"tests": det, "judged": why}, where=ft.fq,
+           construct="final-frame test of Solution.times", loc=loc(ft, ifs[0]) if ifs else loc(ft, fn),
+           message=f"Solution.times decides whether the final frame is already included with `{det}` ({why})",
+           consequence="when the steps after the last periodic frame add up to less than the tolerance (tiny dt_init, or a long run: "
+                       "1e-5 x total time) the final frame's time is dropped: Solution.times has one entry fewer than the file has frames",
+           witness={"input": "7 fixed steps of dt_init=2e-9 with save_every=3"})
 
 
 def tag_expr(e: ast.expr, env: Dict[str, str]) -> Optional[str]:
